@@ -704,3 +704,65 @@ def _callers_of(F, path):
                         idx.setdefault(c, set()).add(owner)
         _CALLERS_OF[id(F)] = idx
     return _CALLERS_OF[id(F)].get(path, set())
+
+
+def upvar_sources(F, b, defs, local, depth=0, seen=None):
+    """If `local` of a closure body is read from the closure's environment (a captured variable), the places of the parent function
+    that were captured: list of (parent body, parent Defs, parent local)."""
+    out = []
+    if "{closure" not in b.path or depth > 8:
+        return out
+    seen = seen if seen is not None else set()
+    if local in seen:
+        return out
+    seen.add(local)
+    idxs = set()
+    for d in defs.defs.get(local, []):
+        if d[2] != "assign":
+            continue
+        rv = d[3]["rv"]
+        pl = rv.get("p") if rv["k"] in ("ref", "rawptr", "discr") else (rv["o"][1] if rv["k"] in ("use", "cast") and is_place_op(rv.get("o")) else None)
+        if pl is None:
+            for x in rv_locals(rv):
+                out += upvar_sources(F, b, defs, x, depth + 1, seen)
+            continue
+        if pl[0] == 1:
+            for x in pl[1:]:
+                if isinstance(x, list) and x[0] == "f":
+                    idxs.add(x[1])
+                    break
+        else:
+            out += upvar_sources(F, b, defs, pl[0], depth + 1, seen)
+    if idxs:
+        parent = F.body(b.path.rsplit("::{closure", 1)[0])
+        if parent is not None and parent.mir:
+            pdefs = Defs(parent)
+            for blk in parent.blocks:
+                for st in blk["stmts"]:
+                    if st["k"] == "assign" and st["rv"]["k"] == "agg" and st["rv"].get("ak") == "closure" and st["rv"].get("def") == b.path:
+                        for ui in idxs:
+                            if ui < len(st["rv"]["ops"]) and is_place_op(st["rv"]["ops"][ui]):
+                                out.append((parent, pdefs, st["rv"]["ops"][ui][1][0]))
+    return out
+
+
+def back_call_names(F, b, defs, local):
+    """last path segments of the calls a value derives from - in this body and, for captured variables of a closure, in its parent"""
+    names = {(callee_def(b.blocks[x]["term"]) or "").rsplit("::", 1)[-1] for x in back_calls(b, defs, local)}
+    work, seen = [local], set()
+    # every local in the backward slice may itself be a captured variable
+    while work:
+        l = work.pop()
+        if l in seen:
+            continue
+        seen.add(l)
+        for pb, pdefs, pl in upvar_sources(F, b, defs, l):
+            names |= back_call_names(F, pb, pdefs, pl)
+        for d in defs.defs.get(l, []):
+            if d[2] == "assign":
+                work.extend(rv_locals(d[3]["rv"]))
+            elif d[2] == "call":
+                for a in d[3].get("args") or []:
+                    if is_place_op(a):
+                        work.append(a[1][0])
+    return names
